@@ -230,13 +230,17 @@ def main():
         else:
             raise SystemExit("unknown form " + form)
         os.environ["SYNRBL_VERIF_TRACE"] = stages_file
-        if run.get("faults"):
-            fp = out_file + ".faults.json"
-            with open(fp, "w") as f:
-                json.dump(run["faults"], f)
-            os.environ["SYNRBL_VERIF_FAULTS"] = fp
-        else:
-            os.environ.pop("SYNRBL_VERIF_FAULTS", None)
+        # the fault plan path is fixed for the whole driver process (joblib workers
+        # inherit the environment when they are spawned); its content changes per run
+        fp = out_file + ".faults.json"
+        with open(fp, "w") as f:
+            json.dump(run.get("faults") or {}, f)
+        os.environ["SYNRBL_VERIF_FAULTS"] = fp
+        gdir = out_file + ".gates"
+        import shutil as _sh
+        _sh.rmtree(gdir, ignore_errors=True)
+        os.makedirs(gdir, exist_ok=True)
+        os.environ["SYNRBL_VERIF_GATES"] = gdir
         from synrbl import _verif
         _verif.emit("run_begin", run=rid, name=run.get("name"))
         stats = {}
